@@ -24,7 +24,7 @@ ASSUMPTIONS = [
 NSHARDS = {"quick": 16, "thorough": 16}
 N_MIX = {"quick": 220, "thorough": 12000}
 N_SIM = {"quick": 14, "thorough": 900}
-REQUIRE = {"container_succeeded": 500, "container_failed": 200, "suspension_finished": 100,
+REQUIRE = {"scale:script_with_more_than_1000_exits_on_one_pool": 1, "scale:script_of_more_than_4096_ticks": 1, "container_succeeded": 500, "container_failed": 200, "suspension_finished": 100,
            "rejected:oversell-cpu": 5, "rejected:oversell-ram": 5, "reject_left_pool_unchanged": 10,
            "sim_ticks_checked": 5000, "sim_runs": 20}
 
